@@ -3,6 +3,7 @@
 package server
 
 import (
+	"sync"
 	"bytes"
 	"fmt"
 	"reflect"
@@ -32,7 +33,7 @@ var c14MsgPayloads = rapid.Custom(func(t *rapid.T) []byte {
 	// the ack inbox is where the server publishes to on behalf of the sender:
 	// strings that are not a NATS subject are a class of their own
 	if rapid.IntRange(0, 5).Draw(t, "hostile-inbox?") == 0 {
-		m.AckInbox = rapid.SampledFrom([]string{"a\r\nPING\r\n", "x\ny", " ", "a b 5", "a\tb", "a..b", ">", "\x00", "_INBOX.\r"}).Draw(t, "hostile-inbox")
+		m.AckInbox = rapid.SampledFrom(c14eHostileInboxes).Draw(t, "hostile-inbox")
 	}
 	b, err := pb.Marshal(m)
 	if err != nil {
@@ -102,17 +103,53 @@ type c14eCase struct {
 	Payloads [][]byte `json:"payloads"`
 }
 
+// c14eMaxBytes is clustering.replication.max.bytes of the C14e server: payloads
+// above it are refused (C04), and the refusal goes to the sender's ack inbox.
+const c14eMaxBytes = 4096
+
+var c14eHostileInboxes = []string{"a\r\nPING\r\n", "x\ny", " ", "a b 5", "a\tb", "a..b", ">", "\x00", "_INBOX.\r"}
+
 func genC14e(t *rapid.T) c14eCase {
 	var c c14eCase
 	n := rapid.IntRange(1, 10).Draw(t, "n")
 	for i := 0; i < n; i++ {
+		if rapid.IntRange(0, 5).Draw(t, "oversize?") == 0 {
+			// a well-formed publish envelope above the size limit; its ack inbox
+			// is absent, a subject, or not a subject
+			m := &client.Message{Value: make([]byte, rapid.IntRange(c14eMaxBytes-40, c14eMaxBytes+2000).Draw(t, "big")),
+				AckInbox: rapid.SampledFrom(append([]string{"", "_INBOX.ok"}, c14eHostileInboxes...)).Draw(t, "big-inbox")}
+			b, err := pb.Marshal(m)
+			if err != nil {
+				panic(err)
+			}
+			env := append([]byte{}, vfutil.EnvelopeMagic...)
+			env = append(env, 0, 8, 0, 0)
+			c.Payloads = append(c.Payloads, append(env, b...))
+			continue
+		}
 		c.Payloads = append(c.Payloads, vfutil.GenEnvelopeBytes(t, c14MsgPayloads))
 	}
 	return c
 }
 
+var (
+	c14eOnce sync.Once
+	c14eL3   *vfL3
+	c14eErr  error
+)
+
+func c14eSetup() (*vfL3, error) {
+	c14eOnce.Do(func() {
+		c14eL3, c14eErr = newVFL3("c14e", func(c *Config) {
+			c.BatchMaxTime = 0
+			c.Clustering.ReplicationMaxBytes = c14eMaxBytes
+		})
+	})
+	return c14eL3, c14eErr
+}
+
 func runC14e(c c14eCase, o *vfutil.Obs) *vfutil.Failure {
-	l, err := l3Setup()
+	l, err := c14eSetup()
 	if err != nil {
 		return vfutil.Failf("harness/setup", "%v", err)
 	}
@@ -158,6 +195,11 @@ func runC14e(c c14eCase, o *vfutil.Obs) *vfutil.Failure {
 	}
 	defer sub.Close()
 	for i, d := range c.Payloads {
+		if len(d) > c14eMaxBytes {
+			// refused, not stored
+			o.Label("above-replication-max-bytes")
+			continue
+		}
 		isEnv, want := c14Predict(d)
 		select {
 		case m := <-sub.Messages():
@@ -188,7 +230,11 @@ func runC14e(c c14eCase, o *vfutil.Obs) *vfutil.Failure {
 }
 
 func TestVerifC14e(t *testing.T) {
-	defer l3Close()
+	defer func() {
+		if c14eL3 != nil {
+			c14eL3.close()
+		}
+	}()
 	vfutil.Run(t, vfutil.Spec[c14eCase]{ID: "C14", Gen: genC14e, Run: runC14e, Journal: true})
 }
 
